@@ -16,7 +16,7 @@ cp -r "$ROOT/harness/src" "$ROOT/harness/build.rs" "$ROOT/harness/Cargo.toml" "$
 cp /repo/Cargo.lock "$HD/Cargo.lock"
 sed -i "s#path = \"/repo\"#path = \"$WT\"#" "$HD/Cargo.toml"
 set +e
-GV_HARNESS="$HD" GV_WORK="/tmp/$TAG/work" GV_EVIDENCE="${GV_EVIDENCE:-/tmp/$TAG/evidence}" GV_REPLAY="${GV_REPLAY:-$ROOT/replay/mut}" "$ROOT/check" "$PID" --tier "$TIER"
+GV_CORPUS="${GV_CORPUS:-$ROOT/corpus/sections}" GV_HARNESS="$HD" GV_WORK="/tmp/$TAG/work" GV_EVIDENCE="${GV_EVIDENCE:-/tmp/$TAG/evidence}" GV_REPLAY="${GV_REPLAY:-$ROOT/replay/mut}" "$ROOT/check" "$PID" --tier "$TIER"
 rc=$?
 echo "mutcheck: exit $rc"
 exit $rc
